@@ -399,8 +399,11 @@ def mixin_part(C):
                    "n_hook('_enable') == (0 if old((" + STORED + " if " + VAR + " in self.player.vars else 0) if " +
                    PERSIST + " else self._enabled) is True else 1)"),
                   ("EN1: every actual change of the enabled flag - persisted in a player variable or not - is announced "
-                   "to the templates subscribed to it, once (device attribute `enabled`, C16)",
-                   "notified_enabled(False, True) if n_hook('_enable') == 1 else n_notified() == 0")],
+                   "to the templates subscribed to it (device attribute `enabled`, C16): the class is monitored for "
+                   "`enabled` (structural obligation MON), so the assignment of the flag announces it; an explicit "
+                   "notification on top of that carries exactly (old, new), and there is none without a change",
+                   "(n_notified() == 0 or notified_enabled(False, True)) if n_hook('_enable') == 1 else "
+                   "n_notified() == 0")],
          modifies=["self._enabled", "self.player.vars.**"], raises={})
     C.fn("EnableDisableMixin.disable",
          requires=[NOT_RESERVED(VAR), ("a persisted flag can only be written while a player is bound",
@@ -408,12 +411,14 @@ def mixin_part(C):
          ensures=[("the flag is cleared where it lives",
                    "(" + STORED + " is False) if " + PERSIST + " else (self._enabled is False)"),
                   ("EN2: every actual change is announced once (see EN1)",
-                   "notified_enabled(True, False) if n_hook('_disable') == 1 else n_notified() == 0")],
+                   "(n_notified() == 0 or notified_enabled(True, False)) if n_hook('_disable') == 1 else "
+                   "n_notified() == 0")],
          modifies=["self._enabled", "self.player.vars.**"], raises={})
 
 
 def logic_block_part(C):
     """persisted logic-block state: the device's state object IS the object stored in the bound player's variable"""
+    common.declare_delay_client(C)
     def key_of(I):
         dev = I.frames[0].env.get("self")
         if dev is None or dev.tag != "obj" or dev.ref.cls == "Player":
@@ -448,7 +453,7 @@ def logic_block_part(C):
     C.globals["MODE_STARTING_EVENT_TEMPLATE"] = VStr("mode_{}_starting")
     C.cls("LogicBlock", file=LB, bases=["SystemWideDevice", "ModeDevice"], fields=dict(
         config=Rec(persist_state=Bool), _state=Opt(STATE), _start_enabled=Opt(Bool), player_state_variable=Str,
-        name=Str))
+        name=Str, delay=common.DelayMgr))
     START = z3.Int("start_value")
     C.ext("LogicBlock.get_start_value", model=lambda I, env, a, k: VInt(START),
           trusted_reason="abstract: the configured start value of the concrete block (C18)")
@@ -482,9 +487,13 @@ def logic_block_part(C):
               "and (" + VAR + " in player.vars) == " + HAD + ")"),
          ],
          modifies=["self._state", "player.vars.**"], raises={})
+    C.helpers["block_timers_cleared"] = lambda I: VBool(bool([e for e in I.cur_trace() if e.name == "delay.clear"]))
+    C.trace_helpers |= {"block_timers_cleared"}
     C.fn("LogicBlock.device_removed_from_mode", params=dict(mode=ObjS("Mode")),
-         ensures=[("S5: the link to the player's state is dropped when the mode stops", "self._state is None")],
-         modifies=["self._state"], raises={})
+         ensures=[("S5: the link to the player's state is dropped when the mode stops - with or without persist_state - "
+                   "and with it every timer of the block (a timeout armed during this player's ball must not act on the "
+                   "next player's state)", "self._state is None and block_timers_cleared()")],
+         modifies=["self._state", "self.delay.pending.**"], raises={})
 
     # ---- mode controller
     def modes3(I, name):
@@ -593,6 +602,27 @@ def mode_controller_set(pid):
     c.replay_pid = "C11"
     c.only_verify = ["ModeController._ball_ending", "ModeController._mode_stopped_callback"]
     return c
+
+
+def enabled_is_monitored(C):
+    """MON: EnableDisableMixin (and its system-wide twin) are decorated with DeviceMonitor("enabled"): every assignment
+    that changes `enabled` - also one that goes to a player variable through the property setter - completes the futures
+    of the templates subscribed to it (DeviceMonitor.__setattr__, native check c16_inherited_monitored_attribute.py)"""
+    import ast as pyast
+    from pyvc import extract
+    src, tree = extract.load_module("mpf/core/enable_disable_mixin.py")
+    rows = []
+    for node in tree.body:
+        if isinstance(node, pyast.ClassDef) and node.name in ("EnableDisableMixin", "EnableDisableMixinSystemWideDevice"):
+            ok = any(isinstance(d, pyast.Call) and getattr(d.func, "id", None) == "DeviceMonitor" and
+                     any(isinstance(a, pyast.Constant) and a.value == "enabled" for a in d.args)
+                     for d in node.decorator_list)
+            rows.append(("MON: %s is monitored for 'enabled'" % node.name, ok,
+                         "decorated with DeviceMonitor('enabled')" if ok else "NOT decorated with DeviceMonitor('enabled'): "
+                         "a change of the flag is no longer announced by its assignment"))
+    if len(rows) != 2:
+        rows.append(("MON: both enable/disable mixin classes exist", False, "found %d" % len(rows)))
+    return rows
 
 
 def logic_block_leak_check():
@@ -933,6 +963,7 @@ def build_extra():
     C2 = ContractSet("C11", "persisted enable flags of mode devices (EnableDisableMixin)")
     C2.strings = True
     mixin_part(C2)
+    C2.finite_checks.append(enabled_is_monitored)
     C3 = ContractSet("C11", "persisted logic-block state and the per-turn player pointer of game modes")
     C3.strings = True
     logic_block_part(C3)
